@@ -27,6 +27,10 @@ pub struct SpiCase {
     pub n: u8,
     /// staging buffer length in bytes (also beyond 65535: frame-sized buffers)
     pub buf: u32,
+    /// Some((m, i)): from operation i on, the same interface object is used with m-byte pixels
+    /// (an interface handed from one display to another via release())
+    #[serde(default)]
+    pub alt: Option<(u8, u8)>,
     pub ops: Vec<SpiOp>,
 }
 
@@ -38,17 +42,10 @@ fn px_bytes(seed: u32, k: u32, n: usize) -> [u8; 4] {
     o
 }
 
-fn exec<const N: usize>(case: &SpiCase, info: &mut CaseInfo) -> Result<(), String> {
-    let w = World::new(8, 8, 8);
-    w.borrow_mut().latch_on = true;
-    // poisoned staging buffer
-    // one spare byte in front: the staging buffer starts at an odd or an even address
-    let mut backing = vec![0xA5u8; case.buf as usize + 1];
-    let skip = (case.buf as usize / 3 + case.ops.len()) % 2;
-    let mut di = SpiInterface::new(SpiDev { w: w.clone() }, pin(&w, Src::Dc), &mut backing[skip..skip + case.buf as usize]);
+fn exec<const N: usize>(di: &mut SpiInterface<'_, SpiDev, Pin>, w: &W, case: &SpiCase, range: std::ops::Range<usize>, info: &mut CaseInfo) -> Result<(), String> {
     let usable = (case.buf as u64 / N as u64) * N as u64;
     let cap_px = case.buf as u64 / N as u64;
-    for (idx, op) in case.ops.iter().enumerate() {
+    for (idx, op) in case.ops.iter().enumerate().skip(range.start).take(range.end - range.start) {
         let (tx0, ops0, log0) = {
             let wb = w.borrow();
             (wb.spi_transactions, wb.ops, wb.latch_log.len())
@@ -151,7 +148,9 @@ fn exec<const N: usize>(case: &SpiCase, info: &mut CaseInfo) -> Result<(), Strin
             SpiOp::Repeat { pixel, count } => {
                 expected.push((false, 0x2C));
                 let mut a = [0u8; N];
-                a.copy_from_slice(&pixel[..N]);
+                for i in 0..N {
+                    a[i] = pixel.get(i).copied().unwrap_or(0x77 ^ i as u8);
+                }
                 for _ in 0..*count {
                     expected.extend(a.iter().map(|b| (true, *b as u16)));
                 }
@@ -240,13 +239,33 @@ fn exec<const N: usize>(case: &SpiCase, info: &mut CaseInfo) -> Result<(), Strin
     Ok(())
 }
 
+fn exec_n(n: u8, di: &mut SpiInterface<'_, SpiDev, Pin>, w: &W, case: &SpiCase, range: std::ops::Range<usize>, info: &mut CaseInfo) -> Result<(), String> {
+    match n {
+        1 => exec::<1>(di, w, case, range, info),
+        2 => exec::<2>(di, w, case, range, info),
+        3 => exec::<3>(di, w, case, range, info),
+        _ => exec::<4>(di, w, case, range, info),
+    }
+}
+
 pub fn check(case: &SpiCase, info: &mut CaseInfo) -> Result<(), String> {
     crate::dut::install_panic_hook();
-    let r = std::panic::catch_unwind(std::panic::AssertUnwindSafe(|| match case.n {
-        1 => exec::<1>(case, info),
-        2 => exec::<2>(case, info),
-        3 => exec::<3>(case, info),
-        _ => exec::<4>(case, info),
+    let r = std::panic::catch_unwind(std::panic::AssertUnwindSafe(|| {
+        let w = World::new(8, 8, 8);
+        w.borrow_mut().latch_on = true;
+        // poisoned staging buffer; one spare byte in front: it starts at an odd or an even address
+        let mut backing = vec![0xA5u8; case.buf as usize + 1];
+        let skip = (case.buf as usize / 3 + case.ops.len()) % 2;
+        let mut di = SpiInterface::new(SpiDev { w: w.clone() }, pin(&w, Src::Dc), &mut backing[skip..skip + case.buf as usize]);
+        let total = case.ops.len();
+        match case.alt {
+            Some((m, at)) if (m as u32) <= case.buf && (at as usize) < total => {
+                info.label("pixel-size-switch");
+                exec_n(case.n, &mut di, &w, case, 0..at as usize, info)?;
+                exec_n(m, &mut di, &w, case, at as usize..total, info)
+            }
+            _ => exec_n(case.n, &mut di, &w, case, 0..total, info),
+        }
     }));
     match r {
         Ok(r) => r,
@@ -295,9 +314,10 @@ pub fn strategy(exclude_zero_repeat: bool) -> BoxedStrategy<SpiCase> {
                 pixel,
                 count: if exclude_zero_repeat && count == 0 { 1 } else { count },
             });
-            (Just(n), Just(buf), proptest::collection::vec(prop_oneof![2 => cmd, 3 => px, 3 => rp], 1..=(if buf > 60_000 { 3 } else { 8 })))
+            let alt = proptest::option::weighted(0.12, (1u8..=4, 1u8..4));
+            (Just(n), Just(buf), proptest::collection::vec(prop_oneof![2 => cmd, 3 => px, 3 => rp], 1..=(if buf > 60_000 { 3 } else { 8 })), alt)
         })
-        .prop_map(|(n, buf, ops)| SpiCase { n, buf, ops })
+        .prop_map(|(n, buf, ops, alt)| SpiCase { n, buf, ops, alt })
         .boxed()
 }
 
